@@ -32,10 +32,11 @@ def configs(tier):
     from jumanji.environments.packing.bin_pack.generator import RandomGenerator as G
     from jumanji.environments.packing.bin_pack.reward import DenseReward, SparseReward
 
-    g = lambda i, e: G(max_num_items=i, max_num_ems=e, split_num_same_items=1)
+    g = lambda i, e, **kw: G(max_num_items=i, max_num_ems=e, split_num_same_items=1, **kw)
     out = {"i2e3o3": lambda: BinPack(g(2, 3), obs_num_ems=3, reward_fn=DenseReward()),
            "i2e3o2sparse": lambda: BinPack(g(2, 3), obs_num_ems=2, reward_fn=SparseReward()),
-           "i2e3o3raw": lambda: BinPack(g(2, 3), obs_num_ems=3, reward_fn=DenseReward(), normalize_dimensions=False)}
+           # (a NON-default container: a dimension taken from the 20-ft default instead of the configured container is visible here)
+           "i2e3o3raw": lambda: BinPack(g(2, 3, container_dims=(1200, 1000, 800)), obs_num_ems=3, reward_fn=DenseReward(), normalize_dimensions=False)}
     if tier != "quick":
         out["i2e3o2"] = lambda: BinPack(g(2, 3), obs_num_ems=2, reward_fn=DenseReward())
         out["i3e4o4"] = lambda: BinPack(g(3, 4), obs_num_ems=4, reward_fn=DenseReward())
@@ -541,3 +542,37 @@ def problems(env, cfg, tier):
                  targets=[T.reset, T._make_observation_and_extras],
                  note="generator replaced by its post-condition (contract boundary; the generator's own contract is C10)")
     return [step, order, order_frame, geo, space, mask_fn, reward_fn, reset]
+
+
+
+def _any_(bools):
+    r = jnp.asarray(False)
+    for b in bools:
+        r = r | b
+    return r
+
+
+# ---- loop invariant of RandomGenerator._split_container_into_items_spaces (used by C10 and by the generator-post obligations) ----
+def split_loop_inv(NI, dims):
+    """invariant of RandomGenerator._split_container_into_items_spaces' while loop: valid item spaces are non-empty, inside the container and pairwise disjoint"""
+    AX, LIM = ("x", "y", "z"), dict(zip("xyz", dims))
+
+    def inv(sp, m):
+        out = {}
+        for a in AX:
+            lo, hi = getattr(sp, a + "1"), getattr(sp, a + "2")
+            out["items_non_empty_inside_container_" + a] = ~m | ((lo >= 0) & (lo < hi) & (hi <= LIM[a]))
+            # every slot of the buffer, used or not, holds an ordered interval inside the container (unused slots start as copies of the container;
+            # the environment's observation spec bounds the item sizes of ALL slots)
+            out["every_slot_ordered_inside_container_" + a] = (lo >= 0) & (lo <= hi) & (hi <= LIM[a])
+        dis = []
+        for i in range(NI):
+            for j in range(i + 1, NI):
+                sep = _any_([(getattr(sp, a + "2")[i] <= getattr(sp, a + "1")[j]) | (getattr(sp, a + "2")[j] <= getattr(sp, a + "1")[i]) for a in AX])
+                dis.append(~(m[i] & m[j]) | sep)
+        if dis:
+            out["items_pairwise_disjoint"] = jnp.stack(dis)
+        return out
+    return inv
+
+
